@@ -423,6 +423,34 @@ def check(run):
     if not ok:
         run.violation("N2", ex.where, "binvox exporter and parser disagree on the width of run-length counts", key=key_of("C13-N2", "width"))
 
+    # the body of a binvox file is binary: it reaches frombuffer exactly as read
+    pvb = Prov(ix, pb)
+    fb = [c for c in ast.walk(pb.node) if isinstance(c, ast.Call) and ast.unparse(c.func) == "np.frombuffer" and c.args]
+    if not fb:
+        raise AnalysisError("anchor vanished: np.frombuffer in parse_binvox")
+    body = pvb.canon(fb[0].args[0], pvb.stmt_of(fb[0]))
+    ok = body == "P_fp.read()"
+    run.instance("N2", pb.where, f"run-length body handed to frombuffer: `{body}`", ok)
+    if not ok:
+        run.violation("N2", pb.where, f"parse_binvox passes `{body}` to frombuffer: the body is raw (value, count) byte pairs, so any text operation on it (strip, "
+                                      f"decode, split) removes or alters pairs whose bytes happen to look like white space", key=key_of("C13-N2", "body"))
+
+    # ------------------------------------------------------------------ N3 parallel accessors are overridden together
+    run.rule("N3", "sparse_indices and sparse_values are parallel arrays: an Encoding subclass overrides both or neither (one re-ordered alone no longer pairs with the other)")
+    Enc = ix.cls("trimesh.voxel.encoding.Encoding")
+    n3 = 0
+    for c in [Enc] + ix.all_subclasses(Enc):
+        d = set(c.methods) | set(c.getters)
+        a_, b_ = "sparse_indices" in d, "sparse_values" in d
+        n3 += 1
+        ok = a_ == b_
+        run.instance("N3", f"{c.module.rel}:{c.node.lineno} {c.name}", f"{c.name}: defines sparse_indices={a_}, sparse_values={b_}", ok)
+        if not ok:
+            run.violation("N3", f"{c.module.rel}:{c.node.lineno} {c.name}", f"`{c.name}` overrides {'sparse_indices' if a_ else 'sparse_values'} but inherits the other: the two are read "
+                                                                         f"as parallel arrays (sparse_components, VoxelGrid colours), so their orders must come from one place",
+                          key=key_of("C13-N3", c.name))
+    run.floor("Encoding classes", n3, 8)
+
     # ------------------------------------------------------------------ V1 / V2
     def canon_returns(spec):
         f = ix.func(spec)
